@@ -3,8 +3,8 @@
    pinned commit log lines were interleaved with the JSON objects on stdout and failures were never emitted as
    events (recorded as fixed in known_findings.json). *)
 From Coq Require Import NArith ZArith List Bool Lia.
-From SyModel Require Import Engine.
-From SyProofs Require Import Engine_proofs.
+From SyModel Require Import Engine Links.
+From SyProofs Require Import Engine_proofs Links_proofs.
 Import ListNotations.
 
 (* what the run prints in --json mode after the start event: one object per completed action, one error object
@@ -87,3 +87,23 @@ Example ex_report :
   json_lines (run (fun _ _ _ => false) (fun _ => (0%N, 0%Z)) c 9%Z [[1%N]; [3%N]] [] src dst)
   = [JAction ACreate [2%N]; JAction ADelete [3%N]; JError [1%N]; JSummary 1 0 0 1].
 Proof. vm_compute. reflexivity. Qed.
+
+(* ---------- symbolic-link entries (Model/Links.v; outside Engine.v) ---------- *)
+(* what the run reports for a symlink entry states a change that really happened: a create event -- nothing was there and
+   something is now; a skip event -- the destination entry is what it was (skip mode; an identical link; a link that is not
+   copied because it does not resolve).  On the pinned commit entries that were not copied were reported as created (`fix: a
+   symlink entry that is not copied is reported as skipped ...`, recorded as fixed in known_findings.json). *)
+Theorem C19_link_create_event_true : forall m s d, link_event m s d = EvCreate -> d = DAbsent /\ sync_link m s d <> DAbsent.
+Proof. exact create_event_true. Qed.
+Print Assumptions C19_link_create_event_true.
+
+Theorem C19_link_skip_event_true : forall m s d, link_event m s d = EvSkip -> sync_link m s d = d.
+Proof. exact skip_event_true. Qed.
+Print Assumptions C19_link_skip_event_true.
+
+(* an update event: the entry existed, and exists afterwards -- except in follow mode over a destination LINK when the source link
+   does not resolve to a file: the update path removes the destination link first (kept visible in the statement) *)
+Theorem C19_link_update_event_partial : forall m s d, link_event m s d = EvUpdate ->
+  d <> DAbsent /\ (sync_link m s d <> DAbsent \/ (m = LFollow /\ produced m s = false /\ exists t, d = DLink t)).
+Proof. exact update_event_true. Qed.
+Print Assumptions C19_link_update_event_partial.
